@@ -291,7 +291,7 @@ var c18Impls = []c18Impl{
 
 // c18Flatten walks an RFC 7951 document with the list schema and returns path -> rendered scalar.
 // problems collects structural complaints (duplicate entries, entries without keys).
-func c18Flatten(node interface{}, path, schemaPath string, out map[string]string, problems *[]string) {
+func c18Flatten(node interface{}, path, schemaPath string, schema map[string][]string, out map[string]string, problems *[]string) {
 	m, ok := node.(map[string]interface{})
 	if !ok {
 		*problems = append(*problems, fmt.Sprintf("node at %q is %T, not an object", path, node))
@@ -300,9 +300,9 @@ func c18Flatten(node interface{}, path, schemaPath string, out map[string]string
 	for f, v := range m {
 		switch x := v.(type) {
 		case map[string]interface{}:
-			c18Flatten(x, path+"/"+f, schemaPath+"/"+f, out, problems)
+			c18Flatten(x, path+"/"+f, schemaPath+"/"+f, schema, out, problems)
 		case []interface{}:
-			keys, isList := c18Schema[schemaPath+"/"+f]
+			keys, isList := schema[schemaPath+"/"+f]
 			if !isList {
 				out[path+"/"+f] = fmt.Sprint(x)
 				continue
@@ -328,7 +328,7 @@ func c18Flatten(node interface{}, path, schemaPath string, out map[string]string
 					*problems = append(*problems, fmt.Sprintf("entry-split: list %s/%s has two entries for %s", path, f, elem))
 				}
 				seen[elem] = true
-				c18Flatten(em, path+"/"+elem, schemaPath+"/"+f, out, problems)
+				c18Flatten(em, path+"/"+elem, schemaPath+"/"+f, schema, out, problems)
 			}
 		default:
 			out[path+"/"+f] = fmt.Sprint(x)
@@ -413,7 +413,7 @@ func c18CheckOne(rep *Report, impl c18Impl, s c18Set) (nontrivial bool) {
 	}
 	flat := map[string]string{}
 	var problems []string
-	c18Flatten(root, "", "", flat, &problems)
+	c18Flatten(root, "", "", c18Schema, flat, &problems)
 	for _, p := range problems {
 		cl := "structure"
 		if i := strings.Index(p, ":"); i > 0 && !strings.Contains(p[:i], " ") {
